@@ -164,11 +164,15 @@ class Check:
         if text not in self.trusted:
             self.trusted.append(text)
 
-    def obligation(self, name, kind, thunk, function=None, replayer=None, key=None):
+    def obligation(self, name, kind, thunk, function=None, replayer=None, key=None, device=False):
         o = Obligation(f"{self.prop}/{name}", kind, function)
         o.thunk = thunk
         o.replayer = replayer
         o.key = key or o.name
+        # device=True: a clause that is a proof device and demands MORE than the property states (e.g. "nothing is
+        # re-evaluated without need"): when it stops holding and the native replay of the property itself finds no
+        # failing input, the property is UNDECIDED by proof -- not violated
+        o.device = device
         self.obligations.append(o)
         return o
 
@@ -232,6 +236,11 @@ class Check:
                 rep = {"failed": False, "description": f"replayer crashed: {type(e).__name__}: {e}"}
         if rep is None:
             rep = {"failed": False, "description": "no replayer for this obligation"}
+        if getattr(o, "device", False) and not rep.get("failed"):
+            o.status = "undecided"
+            self.undecided.append(f"{o.name} :: proof-device clause (stronger than the property) refuted by {o.backend}; "
+                                  f"native replay of the property: {rep.get('description', '')[:160]}")
+            return
         self.failures.append(Failure(
             source=o.name, key=rep.get("key") or o.key,
             message=f"obligation {o.name} refuted by {o.backend}: {o.detail[:300]} :: {rep.get('description', '')}",
